@@ -74,6 +74,7 @@ class Page(HTMLParser):
         self.decls = []
         self._a = []              # open <a> collectors
         self.links = []           # dict(href, text, attrs, context)
+        self.events = []          # document order: ('text', str) | ('a', link dict)
         self.feed(text)
         self.close()
 
@@ -88,6 +89,7 @@ class Page(HTMLParser):
             link = {'href': d['href'], 'text': '', 'attrs': d, 'context': tuple(self.stack)}
             self.links.append(link)
             self._a.append(link)
+            self.events.append(('a', link))
         elif tag == 'link' and 'href' in d:
             self.links.append({'href': d['href'], 'text': '', 'attrs': d, 'context': tuple(self.stack), 'rel': d.get('rel')})
         if tag not in VOID:
@@ -108,6 +110,7 @@ class Page(HTMLParser):
 
     def handle_data(self, data):
         self.texts.append((data, tuple(self.stack)))
+        self.events.append(('text', data))
         for a in self._a:
             a['text'] += data
 
